@@ -345,6 +345,15 @@ Theorem C02_bf_place_sound_any_set_order :
     Feasible vr m cs pl.
 Proof. exact bf_place_full_sound. Qed.
 
+(* What the per-run replay obligation (corr:bf_order) establishes for a real order when it evaluates to true: the
+   order lists every vertex exactly once, and it IS the model's output under the set choices read off it. *)
+Theorem C02_bf_replay_meaning :
+  forall nets vs observed,
+    bf_order_replayb nets vs observed = true ->
+    NoDup observed /\ (forall v, In v observed <-> In v vs)
+    /\ bf_order (pick_real observed) (arr_real observed) nets vs = observed.
+Proof. exact bf_replay_order_ok. Qed.
+
 (* Non-vacuity: two components, a vertex that only occurs in a net (9), a self-loop; the oracles read off the
    observed order [3; 1; 2; 5; 4] reproduce it, and they are legitimate on every set they are asked about. *)
 Example C02_bf_order_example :
